@@ -42,7 +42,7 @@ ASSUMPTIONS = [
     "nothing is asserted about WHICH verdict is returned (C07/C08)",
 ]
 TIERS = {
-    "quick": {"runs": 80, "chunk": 1, "wall": 110, "chunk_timeout": 500, "selftest": 4},
+    "quick": {"runs": 56, "chunk": 1, "wall": 110, "chunk_timeout": 500, "selftest": 4},
     "thorough": {"runs": 700, "chunk": 1, "wall": 800, "chunk_timeout": 900, "selftest": 8},
 }
 ISOLATE_RUNS = True
